@@ -293,6 +293,22 @@ def Expr.toREs : List Expr → List RE
   | e :: es => e.toRE :: Expr.toREs es
 end
 
+mutual
+/-- no empty `choice` / `seq` list (the parser never builds one: an empty `seq` is an `IndexError` in `compile`,
+    an empty `choice` compiles to an automaton that accepts nothing) -/
+def Expr.wf : Expr → Bool
+  | .choice es => !es.isEmpty && Expr.wfs es
+  | .seq es => !es.isEmpty && Expr.wfs es
+  | .plus e => e.wf
+  | .star e => e.wf
+  | .opt e => e.wf
+  | .range _ _ e => e.wf
+  | .name _ => true
+def Expr.wfs : List Expr → Bool
+  | [] => true
+  | e :: es => e.wf && Expr.wfs es
+end
+
 /-! ### the parser (`TokenStream`, `parse_expr`, `parse_expr_seq`, `parse_expr_subscript`, `parse_expr_range`,
     `parse_expr_atom`, `resolve_name`), producing the code's AST -/
 
